@@ -81,8 +81,9 @@ Print Assumptions C13_checker_accepts_model.
    (identifiers [A-Za-z_][A-Za-z0-9_]*, not of the Rust hash form, total length <= INT_MAX) the
    demangler (with the fuel the model uses, 8*len+64) returns the qualified name
      scope::...::last[::last | ::~last | ::operator<op>]   without parameter list.
-   Not covered by this theorem: template arguments, substitutions, local names, special names,
-   Rust escapes, non-builtin parameter types (those are differential-tested only). *)
+   Not covered by the round-trip theorems: substitutions, template arguments other than builtin
+   types, local names, special names, Rust `$` escapes, non-builtin parameter types (those are
+   differential-tested only). *)
 Theorem C13_roundtrip_subset_partial : forall d, decl_okb d = true -> demangle (mangle d) = Str (simple_name d).
 Proof. exact roundtrip_simple_name. Qed.
 Print Assumptions C13_roundtrip_subset_partial.
@@ -96,6 +97,21 @@ Theorem C13_roundtrip_examples :
   decl_okb d_fn = true /\ mangle d_fn = str "_ZN3ABC3fooEv" /\ simple_name d_fn = str "ABC::foo".
 Proof. exact roundtrip_examples. Qed.
 Print Assumptions C13_roundtrip_examples.
+
+(* class and function templates whose arguments are builtin types:
+     _Z N (<source-name> [I <builtin type>+ E])+ [C<n> | D<n> | <operator code>] E <builtin type>*
+   demangles to the qualified name of the same declaration without template-argument lists *)
+Theorem C13_roundtrip_templates_partial : forall d, tdecl_okb d = true ->
+  demangle (tmangle d) = Str (simple_name (erase d)).
+Proof. exact roundtrip_templates. Qed.
+Print Assumptions C13_roundtrip_templates_partial.
+
+Theorem C13_roundtrip_examples3 :
+  tdecl_okb td_ctor = true /\ tmangle td_ctor = str "_ZN2v88internal12ScopedVectorIcEC1Ei" /\
+  simple_name (erase td_ctor) = str "v8::internal::ScopedVector::ScopedVector" /\
+  tdecl_okb td_fn = true /\ tmangle td_fn = str "_ZN2ns2tfIilEEii" /\ simple_name (erase td_fn) = str "ns::tf".
+Proof. exact roundtrip_examples3. Qed.
+Print Assumptions C13_roundtrip_examples3.
 
 (* Rust legacy scheme: _ZN <source-name>+ 17h<16 hex digits> E demangles to the path without the hash *)
 Theorem C13_roundtrip_rust_legacy_partial : forall a cs h, rust_okb a cs h = true ->
